@@ -256,3 +256,58 @@ def ob_c(ob):
             ob.inconclusive(sl.name)
         else:
             raise HarnessError("crosshair failed on %s:\n%s" % (sl.name, r["raw"][-1000:]))
+
+
+def replay_na_stream(na, data, step_offset, steps):
+    from . import md_props as P
+
+    bad = P.na_stream_violations(na, data, step_offset, steps)
+    for b in bad:
+        print("  ", b)
+    return bool(bad)
+
+
+@obligation(PID, "d", title="nonadiabatic stream, fresh and resumed runs: through the real integrator-step gate of the surface-hopping engine and the real writer, a run interrupted at any step and resumed holds the initial snapshot plus exactly the multiples of the nonadiabatic cadence with absolute labels and no unwritten rows")
+def ob_d(ob):
+    import seqm.MolecularDynamics as MD
+    import seqm.NonadiabaticDynamics as ND
+
+    ob.encodes(ND.NonadiabaticDynamicsBase._do_integrator_step, MD.HDF5Writer.append_nonadiabatic, MD.HDF5Writer.open, MD.HDF5Writer._open_resume, MD.HDF5Writer._create_new)
+    ob.bound("run length 8; nonadiabatic cadence symbolic in [0,9], data cadence symbolic in [0,3], interruption step symbolic in [0,8] (0 = initialisation only)")
+    ob.assume("electronic structure, coupling, amplitude propagation and hop logic of the step are no-ops (they do not touch the output gate); the step-0 snapshot is written the way initialize() writes it; h5py is the in-memory recorder")
+    pre = "from harness import md_props as P, mdsim as M\nM.install(); M.make_molecule(1)\n"
+    slices = []
+    for name, sig, prec, body in (
+        ("N_all", "na: int, off: int", "0 <= na <= 9 and 0 <= off <= 8", "return P.na_stream_violations(na, 1, off, 8) == []"),
+        ("N_data", "na: int, data: int, off: int", "1 <= na <= 4 and 0 <= data <= 3 and 1 <= off <= 7", "return P.na_stream_violations(na, data, off, 8) == []"),
+    ):
+        sl = chrun.Slice(name, pre, sig, prec, body, "_", 400)
+        slices.append(sl)
+    tw = chrun.Slice("twin_na", pre, "na: int, off: int", "1 <= na <= 4 and 1 <= off <= 7", "return P.na_stream_violations(na, 1, off, 8) == [] and not (na == 3 and off == 5)", "_", 400)
+    res = chrun.run_slices(slices + [tw], jobs=8)
+    for sl, r in zip(slices + [tw], res):
+        ob.paths += 1
+        ob.ch_conditions += 1
+        ob.ch_definite += r["verdict"] in ("confirmed", "counterexample")
+        if sl.name == "twin_na":
+            if r["verdict"] != "counterexample":
+                raise HarnessError("twin_na: expected the planted counterexample, got %s" % r["verdict"])
+            continue
+        ob.sample({"slice": sl.name, "pre": sl.pre, "verdict": r["verdict"], "seconds": r["seconds"], "call": r.get("call")})
+        if r["verdict"] == "confirmed":
+            ob.discharged(sl.name)
+        elif r["verdict"] == "counterexample":
+            vals = chrun.parse_int_args(r["args"])
+            kw = dict(na=vals[0], data=1, step_offset=vals[1], steps=8) if sl.name == "N_all" else dict(na=vals[0], data=vals[1], step_offset=vals[2], steps=8)
+            print("counterexample from CrossHair:", r["call"])
+            from . import md_props as P
+
+            bad = P.na_stream_violations(**kw)
+            if bad:
+                ob.violation("nonadiabatic cadence %d, data cadence %d, interrupted at step %d: %s" % (kw["na"], kw["data"], kw["step_offset"], "; ".join(bad)[:300]), {"module": "harness.C11", "func": "replay_na_stream", "args": kw})
+            else:
+                raise HarnessError("nonadiabatic-stream counterexample did not reproduce: %s" % r["call"])
+        elif r["verdict"] == "inconclusive":
+            ob.inconclusive(sl.name)
+        else:
+            raise HarnessError("crosshair failed on %s:\n%s" % (sl.name, r["raw"][-1000:]))
